@@ -42,6 +42,7 @@ type Rewrite struct {
 
 type PlanProperty struct {
 	Rewrites    []Rewrite     `json:"rewrites"`
+	Race        bool          `json:"race"` // build the native replay binary with the race detector
 	Level       string        `json:"level"`
 	Harnesses   []PlanHarness `json:"harnesses"`
 	Assumptions []string      `json:"assumptions"`
